@@ -133,6 +133,26 @@ def verify(targets=None, props=None, tier='quick', timeout=None, verbose=False, 
             tasks.append(((ri, 'cover'), smt.script(list(rep.entry_pc))))
     res = solve.solve_many(tasks, jobs=jobs, timeout_s=tmo, thorough=(tier == 'thorough'))
     texts = dict(tasks)
+    # merged (conjunctive) obligations that were not discharged as a whole are retried conjunct by conjunct
+    retry = []
+    for (ri, oi), r in res.items():
+        if oi == 'cover' or r['result'] == 'unsat':
+            continue
+        ob = reports[ri].obligations[oi]
+        if ob.goal.op == 'and' and len(ob.goal.args) > 1:
+            for k, g in enumerate(ob.goal.args):
+                retry.append(((ri, oi, k), smt.script(list(ob.pc) + [smt.Not(g)], hide=getattr(ob, 'hide', ()))))
+    if retry:
+        res2 = solve.solve_many(retry, jobs=jobs, timeout_s=tmo, thorough=(tier == 'thorough'))
+        byob = {}
+        for (ri, oi, k), r in res2.items():
+            byob.setdefault((ri, oi), []).append(r)
+        for key, rs in byob.items():
+            if all(r['result'] == 'unsat' for r in rs):
+                res[key] = {'result': 'unsat', 'backend': rs[0]['backend'], 'secs': sum(r['secs'] for r in rs), 'attempts': [a for r in rs for a in r['attempts']], 'model': None}
+            elif any(r['result'] == 'sat' for r in rs):
+                bad = [r for r in rs if r['result'] == 'sat'][0]
+                res[key] = bad
     for (ri, oi), r in res.items():
         if oi == 'cover':
             reports[ri].cover = r
